@@ -44,7 +44,7 @@ func verifAttr(tf TemplateFile) (ConstantAttribute, bool) {
 }
 
 func TestVerifReplayC08(t *testing.T) {
-	alpha := []string{"&quot;", "&#39;", "&amp;", "&amp;lt;", "&amp;quot;", "&", "a", " ", "&lt;", "&#34;", ";", "&amp"}
+	alpha := []string{"&quot;", "&#39;", "&amp;", "&amp;lt;", "&amp;quot;", "&", "a", " ", "&lt;", "&#34;", ";", "&amp", "&amp;copy=", "&amp;lt", "&amp;#39", "&amp;reg"}
 	var vals []string
 	vals = append(vals, "")
 	for _, a := range alpha {
